@@ -131,3 +131,74 @@ def rule_N2(ctx, rid='N2'):
                    unparse(bad[0][0])[:60], bad[0][1]))
     ctx.require(n >= 5, 'N2 found only %d volume getters' % n)
     return n
+
+
+# ---------------------------------------------------------------------------
+# V1  the stored log-likelihood is the value the likelihood returned
+# ---------------------------------------------------------------------------
+
+PACKAGING = {'np.array', 'np.asarray', 'list', 'tuple', 'zip', 'map', 'np.squeeze',
+             'np.atleast_1d', 'np.float64', 'float'}
+
+
+def rule_V1(ctx, rid='V1'):
+    ctx.rule(rid, 'value faithfulness: between the values returned by the user likelihood and '
+             'the log_l array handed back by evaluate_likelihood there is only packaging '
+             '(np.array, list, zip(*), element selection) -- no arithmetic, clipping, '
+             'nan/inf replacement or any other value-changing call')
+    from .cfg import cfg_of
+    f = ctx.program.func('Sampler.evaluate_likelihood')
+    cfg = cfg_of(f)
+    rets = [n for n in cfg.nodes if n.kind == 'stmt' and isinstance(n.ast, ast.Return) and
+            isinstance(n.ast.value, ast.Tuple) and n.ast.value.elts]
+    ctx.require(rets, 'evaluate_likelihood does not return a tuple')
+    bad = []
+    seen = set()
+
+    def walk(nid, e, depth=0):
+        if depth > 10:
+            return
+        if isinstance(e, ast.Name):
+            for d in cfg.defs_at(nid, e.id):
+                if (d, e.id) in seen:
+                    continue
+                seen.add((d, e.id))
+                dn = cfg.nodes[d]
+                if dn.kind == 'stmt' and isinstance(dn.ast, ast.Assign):
+                    walk(d, dn.ast.value, depth + 1)
+                elif dn.kind == 'stmt' and isinstance(dn.ast, ast.AugAssign):
+                    bad.append((dn.lineno, unparse(dn.ast)))
+            return
+        if isinstance(e, ast.Call):
+            d = dotted(e.func) or ''
+            if d == 'self.likelihood' or any(dotted(a) == 'self.likelihood' for a in e.args):
+                return        # the user's values: nothing upstream of here is log_l
+            if d in PACKAGING:
+                for a in e.args:
+                    walk(nid, a.value if isinstance(a, ast.Starred) else a, depth + 1)
+                return
+            if d.endswith('.map') or d == 'self.likelihood':
+                return        # the user's values
+            bad.append((e.lineno, unparse(e)[:60]))
+            return
+        if isinstance(e, (ast.ListComp, ast.GeneratorExp)):
+            elt = e.elt
+            if not (isinstance(elt, ast.Name) or (isinstance(elt, ast.Subscript) and
+                                                  isinstance(elt.value, ast.Name))):
+                bad.append((e.lineno, unparse(e)[:60]))
+            for g in e.generators:
+                walk(nid, g.iter, depth + 1)
+            return
+        if isinstance(e, ast.Subscript):
+            walk(nid, e.value, depth + 1)
+            return
+        if isinstance(e, (ast.BinOp, ast.UnaryOp, ast.IfExp, ast.Compare, ast.BoolOp)):
+            bad.append((e.lineno, unparse(e)[:60]))
+            return
+
+    for r in rets:
+        walk(r.id, r.ast.value.elts[0])
+    ctx.ob(rid, 'Sampler.evaluate_likelihood:log_l-is-returned-value', not bad, f.where(),
+           'log_l is built from the likelihood\'s return values by packaging only' if not bad
+           else 'log_l passes through `%s` (line %d): the stored value is not the value the '
+           'likelihood returned for that point' % (bad[0][1], bad[0][0]))
